@@ -62,6 +62,10 @@ def members_are_values(lst, col):
     return all(any(x == y and type(x) is type(y) for y in col.nonnull) for x in lst)
 
 
+def forall_int(lo, hi, pred):
+    return all(pred(j) for j in range(lo, hi))
+
+
 def is_datev(v):
     return isinstance(v, (datetime.datetime, datetime.date))
 
@@ -88,7 +92,7 @@ def iff(a, b):
 
 NATIVE_PRIMS = dict(forall_nn=forall_nn, exists_nn=exists_nn, distinct_nn=distinct_nn,
                     whole=whole, rex_match=rex_match, is_datev=is_datev,
-                    is_numv=is_numv, members_are_values=members_are_values, is_strv=is_strv, is_boolv=is_boolv,
+                    is_numv=is_numv, forall_int=forall_int, members_are_values=members_are_values, is_strv=is_strv, is_boolv=is_boolv,
                     implies=implies, iff=iff, datetime=datetime)
 
 _loaded = {}
